@@ -126,7 +126,7 @@ class BinningConfig(BaseConfig, Immutable):
             edges = the_dict.pop("edges")
             closed = the_dict.pop("closed")
             binning = Binning(edges, closed=closed)
-            return cls(binning, **the_dict)
+            return cls(binning, method=BinMethod.custom)
 
         return cls.create(**the_dict, cosmology=cosmology)
 
@@ -314,6 +314,14 @@ class BinningConfig(BaseConfig, Immutable):
             This cosmology object is not stored with this instance, but should
             be managed by the top level :obj:`~yaw.Configuration` class.
         """
+        generator_args = (zmin, zmax, num_bins, method)
+        if (
+            edges is NotSet
+            and self.is_custom
+            and all(arg is NotSet for arg in generator_args)
+        ):
+            edges = self.edges  # keep the custom bin edges
+
         if edges is NotSet:
             if method == "custom":
                 raise ConfigError("'method' is 'custom' but no bin edges provided")
